@@ -45,7 +45,9 @@ def own_library(name, lang, wraps, options=None, fmt=None, namespace=None, patte
         fs += [F(K, "void", [], cls=K, ctor=True, fid=K + "#ctor0", yaml={"format": {"function_suffix": "_default"}}),
                F(K, "void", [P("flag", "val", "int")], cls=K, ctor=True, fid=K + "#ctor1", yaml={"format": {"function_suffix": "_flag"}}),
                F("~", "void", [], cls=K, dtor=True, fid=K + "#dtor", dtor_name="delete"),
-               F("get", "int", [], cls=K, const=True, fid=K + "#get")]
+               F("get", "int", [], cls=K, const=True, fid=K + "#get"),
+               # a method (declared after the constructors) that returns a library-owned object of the class
+               F("peer", {"kind": "cls_ptr", "cls": K}, [], cls=K, fid="peer")]
         pooled = F("pooled", {"kind": "cls_ptr", "cls": K, "owner": "caller", "free_pattern": "pool_put"}, [P("flag", "val", "int")])
         make = F("make", {"kind": "cls_ptr", "cls": K, "owner": "caller"}, [P("flag", "val", "int")])
         fs += [F("getptr", {"kind": "cls_ptr", "cls": K}, [])]
@@ -173,7 +175,7 @@ def make_history(lib, r, target, n_ops):
         o["refs"].discard(h)
         if o["refs"] or o["dead"]:
             return [], []
-        if o["how"] == "getptr":
+        if o["how"] in ("getptr", "peer"):
             return [], []                       # library-owned: nothing may happen
         o["dead"] = True
         if o["how"] == "pooled":
@@ -267,17 +269,28 @@ def make_history(lib, r, target, n_ops):
         if ch == "create":
             h = r.choice(free_h)
             hows = ["new0", "new1", "make", "copy", "getptr", "pooled"] if target != "fortran" else ["new0", "new1", "make", "copy", "getptr"]
-            how = r.choice([x for x in hows if x in ("new0", "new1") or x in names])
+            if target == "python" and live_h:
+                hows += ["peer", "peer"]
+            how = r.choice([x for x in hows if x in ("new0", "new1", "peer") or x in names])
             flag = r.choice(libs.battery("int"))
+            src = None
             if how == "getptr":
                 if st["static"] is None:
                     st["static"] = new_obj("getptr", False)
                 oid = st["static"]
+            elif how == "peer":
+                src = r.choice(live_h)
+                if st.get("static_peer") is None:
+                    st["static_peer"] = new_obj("peer", False)
+                oid = st["static_peer"]
             else:
                 oid = new_obj(how, True)
             handle[h] = oid
             objs[oid]["refs"].add(h)
-            add({"op": "create", "how": how, "h": h, "flag": flag}, oid=oid)
+            stp = {"op": "create", "how": how, "h": h, "flag": flag}
+            if src is not None:
+                stp["src"] = src
+            add(stp, oid=oid)
         elif ch in ("get", "use"):
             h = r.choice(live_h)
             add({"op": ch, "h": h}, oid=handle[h])
@@ -388,6 +401,8 @@ def step_call(lib, st_, learned=None):
             return {"f": fi, "variant": 0, "args": {"flag": st_["flag"]} if how == "new1" else {}, "obj": st_["h"], "cls": K, "op": "new"}
         if how == "getptr":
             return {"f": fidx(lib, "getptr"), "variant": 0, "args": {}, "res_obj": st_["h"]}
+        if how == "peer":
+            return {"f": fidx(lib, "peer", K), "variant": 0, "args": {}, "obj": st_["src"], "cls": K, "res_obj": st_["h"], "op": "call"}
         return {"f": fidx(lib, how), "variant": 0, "args": {"flag": st_["flag"]}, "res_obj": st_["h"]}
     if op == "get":
         return {"f": fidx(lib, K + "#get", K), "variant": 0, "args": {}, "obj": st_["h"], "cls": K, "op": "call"}
@@ -490,6 +505,8 @@ def py_ops(lib, steps):
             how = s["how"]
             if how in ("new0", "new1"):
                 o = {"kind": "new", "name": K, "obj": s["h"], "pos": [s["flag"]] if how == "new1" else []}
+            elif how == "peer":
+                o = {"kind": "methodobj", "name": "peer", "obj": s["h"], "src": s["src"], "pos": []}
             else:
                 o = {"kind": "callobj", "name": how, "obj": s["h"], "pos": [] if how == "getptr" else [s["flag"]]}
         elif op == "get":
